@@ -13,10 +13,10 @@ type Config struct {
 	Colls   int             `json:"colls"`
 	Actors  []ActorCfg      `json:"actors"`
 	Oracles map[string]bool `json:"oracles"`
-	Faults  map[string]bool `json:"faults,omitempty"` // enabled fault kinds (informational; the events carry them)
+	Faults  map[string]bool `json:"faults,omitempty"`   // enabled fault kinds (informational; the events carry them)
 	HoldPub bool            `json:"hold_pub,omitempty"` // a server's publish waits for the simulator (notification goroutines overtake each other)
 	Observe bool            `json:"observe,omitempty"`  // report plain end-of-run observations (scenario demonstrations)
-	Count   bool            `json:"count,omitempty"`  // report the database commands issued per exchange event (base scenarios of the systematic placement)
+	Count   bool            `json:"count,omitempty"`    // report the database commands issued per exchange event (base scenarios of the systematic placement)
 }
 
 // MongoFault places a fault on the k-th database command issued while serving an exchange.
